@@ -96,6 +96,54 @@ def show(t, depth=4):
     return "<%s>" % k
 
 
+_DESUGARED = {}
+
+
+def _loops_for_comprehensions(body):
+    """`xs = [e for t in it if c]` / `return [e for ...]` as a statement is read as the loop it abbreviates
+    (`xs = []; for t in it: if c: xs.append(e)`): this interpreter follows lists that are built in place."""
+    key = id(body)
+    if key in _DESUGARED:
+        return _DESUGARED[key][1]
+
+    def expand(name, comp, at):
+        stmts = [ast.Assign(targets=[ast.Name(id=name, ctx=ast.Store())], value=ast.List(elts=[], ctx=ast.Load()))]
+        inner = [ast.Expr(value=ast.Call(func=ast.Attribute(value=ast.Name(id=name, ctx=ast.Load()), attr="append", ctx=ast.Load()), args=[comp.elt], keywords=[]))]
+        for g in reversed(comp.generators):
+            for c in reversed(g.ifs):
+                inner = [ast.If(test=c, body=inner, orelse=[])]
+            inner = [ast.For(target=g.target, iter=g.iter, body=inner, orelse=[])]
+        stmts += inner
+        for st in stmts:
+            ast.copy_location(st, at)
+            ast.fix_missing_locations(st)
+        return stmts
+
+    def rec(stmts):
+        out = []
+        for st in stmts:
+            if isinstance(st, ast.Assign) and len(st.targets) == 1 and isinstance(st.targets[0], ast.Name) and isinstance(st.value, ast.ListComp) and not any(g.is_async for g in st.value.generators):
+                out += expand(st.targets[0].id, st.value, st)
+            elif isinstance(st, ast.Return) and isinstance(st.value, ast.ListComp):
+                out += expand("__comp_result", st.value, st)
+                out.append(ast.copy_location(ast.Return(value=ast.copy_location(ast.Name(id="__comp_result", ctx=ast.Load()), st)), st))
+            elif isinstance(st, (ast.If, ast.For, ast.With, ast.Try)):
+                import copy
+
+                n = copy.copy(st)
+                for f in ("body", "orelse", "finalbody"):
+                    if getattr(n, f, None):
+                        setattr(n, f, rec(getattr(n, f)))
+                out.append(n)
+            else:
+                out.append(st)
+        return out
+
+    res = rec(body)
+    _DESUGARED[key] = (body, res)
+    return res
+
+
 class _Frame:
     def __init__(self, fi, depth):
         self.fi = fi
@@ -125,7 +173,7 @@ class Flow:
         self.events.append(kw)
 
     # ---- functions -------------------------------------------------------------------------
-    def call(self, fi, args, kwargs, depth=0, loops=(), guards=()):
+    def call(self, fi, args, kwargs, depth=0, loops=(), guards=(), closure=None):
         if depth > 8:
             raise Unsupported("inlining depth exceeded at %s" % fi.qualname)
         a = fi.node.args
@@ -135,7 +183,7 @@ class Flow:
         names = pos + [x.arg for x in a.kwonlyargs]
         defaults = func_defaults(fi.node)
         fr = _Frame(fi, depth)
-        env = {}
+        env = dict(closure or {})  # a function defined inside another one reads the enclosing function's variables
         if len(args) > len(pos):
             raise Unsupported("too many positional arguments for %s" % fi.qualname)
         for i, n in enumerate(names):
@@ -150,9 +198,9 @@ class Flow:
         extra = set(kwargs) - set(names)
         if extra:
             raise Unsupported("call of %s passes unknown keyword(s) %s" % (fi.qualname, sorted(extra)))
-        init = dict(env)
+        init = {n: env[n] for n in names if n in env}
         self.inlined.append(fi)
-        live = self.block(fi.node.body, env, fr, loops, guards)
+        live = self.block(_loops_for_comprehensions(fi.node.body), env, fr, loops, guards)
         rets = list(fr.returns)
         if live:
             rets.append((NONE, guards, env))
@@ -431,6 +479,13 @@ class Flow:
         f = e.func
         if isinstance(f, ast.Name):
             if f.id in env:
+                lf = env[f.id]
+                if isinstance(lf, tuple) and lf and lf[0] == "localfn" and lf[1] in self.prog.functions and fr.depth < 8:
+                    nfi = self.prog.functions[lf[1]]
+                    if not nfi.node.decorator_list:
+                        own = set(nfi.params)
+                        val, wb = self.call(nfi, args, kw, fr.depth + 1, loops, guards, closure={k: v for k, v in env.items() if k not in own})
+                        return val
                 return ("callv", env[f.id], tuple(args), kws(kw))
             if f.id in OPAQUE_MUTATORS:
                 i = OPAQUE_MUTATORS[f.id]
@@ -1216,7 +1271,14 @@ class Scan:
                 self.scan(e.get("value"))
             return
         if k in ("elem",) or (k == "item" and t[1][0] == "elem" and not T.is_frame(t)):
-            return  # loop variables: their order is classified where the loop feeds a sink
+            # loop variables: their order is classified where the loop feeds a sink.  An element of a list that was
+            # built in place (rows carried as records through a helper) carries what was put into that list.
+            base = t[1] if k == "elem" else None
+            while base is not None and base[0] == "call" and base[1] in ("list", "tuple") and len(base[2]) == 1:
+                base = base[2][0]
+            if base is not None and base[0] == "new":
+                self.scan(base)
+            return
         if k == "sub" and t[1][0] == "attr" and T.is_frame(t[1][1]):
             how, G, key = t[1][2], t[1][1], t[2]
             if how in ("at", "loc"):
